@@ -69,3 +69,9 @@ CHECKS["C08"] = {
   "text": "Loader-shaped frames (int64 ticks, Decimal volumes / liquidity), paths anchored on the range bounds (exactly on, one tick inside / outside, jumps across, stationary), bar interval 1 and 5 min, both orientations, decimals {6,8,18}^2, three fee tiers, 1-3 positions added in before_bar / on_bar and removed later, unrelated swaps / far-away positions / collects in the same bar; per bar and position: fee_k = volume_k x rate x fraction of [previous close, close] inside [lower, upper) x own / (pool + all own), at 1e-25 relative plus one unit of the last place of the pending amount; never negative; zero when the path never enters the range; never above the single-position share. Sampled exploration.",
   "note": "Bar 0 uses its own close as path start. Pool liquidity >= 1 (a pool row with zero liquidity and a zero-liquidity own position divides 0/0 in the code: outside the generated domain, stated here).",
 }
+
+CHECKS["C09"] = {
+  "technique": "Hypothesis generated programs in base / quote terms executed on a pool and on its mirror (token order, decimals, volumes swapped, ticks negated); metamorphic comparison of every returned quantity, wallet and market balance after every step",
+  "text": "2-10 operations per program: adds by tick (default price; explicit tick on the lower / upper bound, inside, +1, -1) and by price, partial / full removes with and without collect, collects, buy, sell, swap either way, even_rebalance, add_liquidity_by_value (wide ranges around, above and below the price; whole balance or a value), estimate_amount, estimate_liquidity (in and out of range), get_position_status (amounts, values, H / L / P), get_market_balance, bars with mirrored off-grid tick paths and volumes (fee accrual incl. crossings); decimals {6,8,18}^2, three fee tiers, price region below / inside / above. Exact operations at 1e-12 of the account size, liquidity at 1e-9 + 4 units, estimate helpers at max(0.1%, 1.5 / distance to the nearest bound in ticks), add_liquidity_by_value at max(1%, 20 / distance) and by value; same exception class required in both orientations. Sampled exploration.",
+  "note": "A relation between two runs of the same code: errors that are symmetric in both orientations are invisible to it (they are C07 / C08's subject). Closes exactly on a range bound are excluded for bars (half-open tick ranges do not mirror); explicit on-bound prices are used for exact operations.",
+}
